@@ -66,14 +66,15 @@ def run(spec, keep_tmp=False, sample=None):
     s3f, getf, fsf, readf = spec.get('s3_fault'), spec.get('get_fault'), spec.get('fs_fault'), spec.get('read_fault')
     fs_count = {}
 
+    fs_list = fsf if isinstance(fsf, list) else ([fsf] if fsf else [])
+
     def fs_fault(name, kw):
-        if not fsf or fsf['op'] != name:
-            return None
-        if kw.get('mode') == 'rb':
+        if kw.get('mode') == 'rb' or not any(f['op'] == name for f in fs_list):
             return None
         fs_count[name] = fs_count.get(name, 0) + 1
-        if fs_count[name] == fsf['nth']:
-            return OSError(f'injected fs fault {name}')
+        for f in fs_list:
+            if f['op'] == name and (f['nth'] == 'all' or fs_count[name] == f['nth']):
+                return OSError(f'injected fs fault {name}')
         return None
 
     def scenario(env):
